@@ -66,9 +66,13 @@ def _value_shards(tier):
     out = []
     nv = len(DS.VALUE_KINDS)
     # every value kind under the plain namespace mode for every attribute-name class
-    for a in range(len(DS.ATTR_NAMES)):
+    for a in range(len(DS.ATTR_NAMES) - 1):
         for vk in range(nv):
             out.append({"attr": a, "vk": vk, "ns": 0, "bundle": False})
+    # attribute NAME in the default namespace (document-level and bundle-level default)
+    for ns, b in ((1, False), (1, True), (2, True)):
+        for vk in (0, 1, 5, 8):
+            out.append({"attr": 6, "vk": vk, "ns": ns, "bundle": b})
     # every namespace mode x {document, bundle} for the name-carrying value kinds and a string
     for ns in range(1, len(DS.NS_MODES)):
         for b in (False, True):
